@@ -31,7 +31,7 @@ from .gather_helpers import get_gir_output_shape
 from .gather_compile import compile_to_gir
 
 
-_CONST_HANDLERS_REGISTERED: bool = False
+_HANDLERS_MARK: str = "_gather_const_handlers_registered"
 
 
 def _as_value(value: Any) -> ir.Value:
@@ -44,13 +44,17 @@ def _as_dim_tuple(dims: tuple[Any, ...] | list[Any]) -> tuple[DimInput, ...]:
 
 
 def _ensure_constant_folders_registered(ctx: LoweringContextProtocol) -> None:
-    global _CONST_HANDLERS_REGISTERED
-    if _CONST_HANDLERS_REGISTERED:
+    # The handlers live on the per-context constant folder, so "already
+    # registered" must be tracked per context as well: a process-wide flag left
+    # every context after the first one without handlers, and the same request
+    # exported differently depending on what was converted before.
+    folder = getattr(ctx, "_const_folder", None)
+    marker_owner = folder if folder is not None else ctx
+    if getattr(marker_owner, _HANDLERS_MARK, False):
         return
 
     register = getattr(ctx, "register_constant_evaluator", None)
     if not callable(register):
-        _CONST_HANDLERS_REGISTERED = True
         return
 
     from jax import lax
@@ -85,7 +89,10 @@ def _ensure_constant_folders_registered(ctx: LoweringContextProtocol) -> None:
         except Exception:
             continue
 
-    _CONST_HANDLERS_REGISTERED = True
+    try:
+        setattr(marker_owner, _HANDLERS_MARK, True)
+    except Exception:
+        pass
 
 
 def _is_integer_dtype(dtype: Any) -> bool:
